@@ -126,6 +126,8 @@ pub struct SimFs {
     /// Called before every filesystem call (outside the state lock): a scheduling / stall point
     /// for the threaded engines.
     pub on_op: Option<Arc<dyn Fn(&OpKind) + Send + Sync>>,
+    /// Consulted for calls that have no scheduled fault: dynamic fault injection for the threaded engines.
+    pub fault_fn: Option<Arc<dyn Fn(u64, &OpKind) -> Option<Fault> + Send + Sync>>,
 }
 
 enum Decision {
@@ -149,6 +151,7 @@ impl SimFs {
                 dead: false,
             })),
             on_op: None,
+            fault_fn: None,
         }
     }
 
@@ -184,7 +187,14 @@ impl SimFs {
         }
         let index = st.op;
         st.op += 1;
-        let fault = st.faults.remove(&index);
+        let mut fault = st.faults.remove(&index);
+        if fault.is_none() {
+            if let Some(f) = &self.fault_fn {
+                drop(st);
+                fault = f(index, &kind);
+                st = self.lock();
+            }
+        }
         let decision = match fault {
             None => Decision::Proceed,
             Some(f) => {
